@@ -335,6 +335,12 @@ public:
 	*/
 	void copy(const T* p, int n)
 	{
+		if (p >= _a && p < _a + length()) // p points into this array: resize() would destroy or move the elements before they are read
+		{
+			Array b(p, n);
+			copy(b);
+			return;
+		}
 		resize(n);
 		for (int i = 0; i < n; i++)
 			_a[i] = p[i];
@@ -461,6 +467,8 @@ public:
 	*/
 	Array& append(const T* p, int n)
 	{
+		if (p >= _a && p < _a + length()) // p points into this array: resize() may move the elements before they are read
+			return append(Array(p, n));
 		int m=length();
 		resize(m + n);
 		for (int i=0; i<n; i++)
